@@ -59,6 +59,13 @@ def check_grid(case):
                 exp = M.agnostic_letters(l, o, b_l, b_o) + acc_text(alt)
                 if got != exp:
                     raise Bad('grid', f'pitch_to_gkern_string({name_of(l, alt)}{o}, {ctext}) = {got!r}, model {exp!r}')
+                # the same pitch with its name in the other documented spellings of AgnosticPitch ('F#', 'Bb', lower case)
+                if alt != 0:
+                    for spelled in (M.LETTERS[l] + ('#' * alt if alt > 0 else 'b' * -alt), name_of(l, alt).lower()):
+                        other = kp.pitch_to_gkern_string(kp.AgnosticPitch(spelled, o), clef)
+                        evals += 1
+                        if other != exp:
+                            raise Bad('grid-name-spelling', f'pitch_to_gkern_string(AgnosticPitch({spelled!r}, {o}), {ctext}) = {other!r}, model {exp!r}')
                 if clef_name == 'G2' and got != M.spell(l, alt, o):
                     raise Bad('g2-identity', f'G2: {M.spell(l, alt, o)!r} -> {got!r}')
                 # one diatonic step up (next letter) moves the result one step up, independently of the constant
